@@ -137,7 +137,10 @@ impl FileMetadataState {
     fn update_dimensions(&mut self, entry: &DirEntry) {
         if !self.dimensions_set {
             self.dimensions_set = true;
-            self.dimensions = get_dimensions(entry.path());
+            self.dimensions = match is_special_file(&entry.path()) {
+                true => None,
+                false => get_dimensions(entry.path()),
+            };
         }
     }
 
@@ -146,7 +149,10 @@ impl FileMetadataState {
             self.update_mp3_metadata(entry);
 
             self.duration_set = true;
-            self.duration = get_duration(entry.path(), &self.mp3_metadata);
+            self.duration = match is_special_file(&entry.path()) {
+                true => None,
+                false => get_duration(entry.path(), &self.mp3_metadata),
+            };
         }
     }
 }
@@ -662,7 +668,7 @@ impl<'a> Searcher<'a> {
                                     if search_archives
                                         && self.is_zip_archive(&path.to_string_lossy())
                                     {
-                                        if let Ok(file) = fs::File::open(&path) {
+                                        if let Ok(file) = open_file(&path) {
                                             if let Ok(mut archive) = zip::ZipArchive::new(file) {
                                                 for i in 0..archive.len() {
                                                     if self.query.limit > 0
@@ -1446,7 +1452,7 @@ impl<'a> Searcher<'a> {
             Field::HasXattrs => {
                 #[cfg(unix)]
                 {
-                    if let Ok(file) = fs::File::open(entry.path()) {
+                    if let Ok(file) = open_file(entry.path()) {
                         if let Ok(xattrs) = file.list_xattr() {
                             let has_xattrs = xattrs.count() > 0;
                             return Variant::from_bool(has_xattrs);
@@ -1462,7 +1468,7 @@ impl<'a> Searcher<'a> {
             Field::Capabilities => {
                 #[cfg(target_os = "linux")]
                 {
-                    if let Ok(file) = fs::File::open(entry.path()) {
+                    if let Ok(file) = open_file(entry.path()) {
                         if let Ok(Some(caps_xattr)) = file.get_xattr("security.capability") {
                             let caps_string =
                                 crate::util::capabilities::parse_capabilities(caps_xattr);
@@ -1657,7 +1663,7 @@ impl<'a> Searcher<'a> {
                 }
             }
             Field::Mime => {
-                if let Some(mime) = tree_magic_mini::from_filepath(&entry.path()) {
+                if let Some(mime) = self.get_mime(entry) {
                     return Variant::from_string(&String::from(mime));
                 }
 
@@ -1673,7 +1679,7 @@ impl<'a> Searcher<'a> {
                     }
                 }
 
-                if let Some(mime) = tree_magic_mini::from_filepath(&entry.path()) {
+                if let Some(mime) = self.get_mime(entry) {
                     let is_binary = !is_text_mime(mime);
                     return Variant::from_bool(is_binary);
                 }
@@ -1690,7 +1696,7 @@ impl<'a> Searcher<'a> {
                     }
                 }
 
-                if let Some(mime) = tree_magic_mini::from_filepath(&entry.path()) {
+                if let Some(mime) = self.get_mime(entry) {
                     let is_text = is_text_mime(mime);
                     return Variant::from_bool(is_text);
                 }
@@ -1856,6 +1862,14 @@ impl<'a> Searcher<'a> {
         }
 
         Ok(true)
+    }
+
+    fn get_mime(&self, entry: &DirEntry) -> Option<&'static str> {
+        if is_special_file(&entry.path()) {
+            return None;
+        }
+
+        tree_magic_mini::from_filepath(&entry.path())
     }
 
     fn colorize(&mut self, value: &str) -> String {
